@@ -22,7 +22,7 @@ import (
 // ns(p) at the place where this harness echoes the expected listing, so a difference between the
 // two specifications is a correspondence mismatch).
 //
-// Observation: 1, the expected listing, outcome class, canonical tree dump.
+// Observation: 1 1, the expected listing, outcome class, canonical tree dump, namespace view.
 // MONITOR: the namespace view of the real tree (read through the nested ScopeBlocks the way the
 // kernel would) must equal the expected listing: every named object at its absolute path with its
 // kind and arguments in order, values of constants / strings / buffers / field units, every call
@@ -57,7 +57,7 @@ func verifC11Case(out *verifOut, c verifCase) {
 		expFlat = append(expFlat, uint64(len(e)))
 		expFlat = append(expFlat, e...)
 	}
-	obs := append([]uint64{1}, expFlat...)
+	obs := append([]uint64{1, 1}, expFlat...) // encode(ast) = bytes and wf_program(ast): decided by the model, expected true
 
 	res := verifAmlParse(payloads)
 	defer res.release()
